@@ -179,7 +179,7 @@ def observe(drv: CL.Driver, km, tk, rng, env_snap, originals, nq: int) -> Dict[s
         rec["index_fresh"] = CL.index_snapshot(CL.MetadorContainer(drv.raw))
     except Exception as ex:
         rec["obs_err"] = type(ex).__name__ + ": " + str(ex)[:300] + " | " + traceback.format_exc()[-400:]
-        for k in ("tree", "meta", "links", "schemas", "pkgs", "empties", "weird", "uview", "uvisit", "uextra", "queries", "gets", "files"):
+        for k in ("tree", "meta", "links", "schemas", "pkgs", "empties", "weird", "uview", "uvisit", "uextra", "umeta", "queries", "gets", "files"):
             rec.setdefault(k, [])
         rec.setdefault("held", [])
         rec.setdefault("ident", "")
@@ -350,7 +350,7 @@ def gen(rng: random.Random, h5rec: Dict[str, Any], stage: int, job: Dict[str, An
         a["op"] = "attach"
         a["p"] = rng.choice(nodes) if rng.random() < 0.92 else ["zz", "nope"]
         deep = [n["p"] for n in tree if n["k"] == "d" and len(n["p"]) >= 2]
-        if deep and rng.random() < job.get("attach_deep_datasets", 0.0):
+        if deep and rng.random() < job.get("attach_deep_datasets", 0.3):
             a["p"] = rng.choice(deep)    # metadata on datasets inside groups (moved / copied along with the group later)
         hot = [n for n in nodes if any(s_ in job.get("_hot", ()) for s_ in n)]
         if hot and rng.random() < 0.5:
@@ -400,7 +400,7 @@ def gen(rng: random.Random, h5rec: Dict[str, Any], stage: int, job: Dict[str, An
             return a
     ghosts = [g for g in job.get("_ghosts", ()) if not any(n["p"] == g for n in tree)
               and not any(n["k"] == "d" and g[: len(n["p"])] == n["p"] for n in tree if n["p"])]
-    if ghosts and rng.random() < job.get("resurrect_annotated", 0.1):
+    if ghosts and rng.random() < job.get("resurrect_annotated", 0.15):
         # a fresh node at a path where an annotated node used to be (deleted, or moved away with its group) in this session
         g = rng.choice(ghosts)
         if rng.random() < 0.7:
@@ -412,7 +412,7 @@ def gen(rng: random.Random, h5rec: Dict[str, Any], stage: int, job: Dict[str, An
                      weights=job.get("data_weights") or {"copy": 3.5, "move": 3, "delete": 3, "set_attr": 1.5, "del_attr": 0.7},
                      allow_copy_into_self=False, attr_keys=job.get("attr_keys"))
     a.update({k: e[k] for k in e if k in a or k in ("how",)})
-    if a["op"] in ("copy", "move") and rng.random() < job.get("restructure_groups_with_meta", 0.0):
+    if a["op"] in ("copy", "move") and rng.random() < job.get("restructure_groups_with_meta", 0.3):
         # the source is a group that contains a dataset carrying metadata (the metadata travels along)
         srcs = [n["p"] for n in tree if n["k"] == "g" and n["p"] and
                 any(m["isds"] and m["node"][: len(n["p"])] == n["p"] and len(m["node"]) > len(n["p"]) for m in meta)]
@@ -471,7 +471,7 @@ def run_history(job: Dict[str, Any], emit, scratch: Path, tk: h5lib.Tokens, env:
                     if d is broken[0]:
                         o = {"drv": d.kind, "timeout": False, "obs_err": "boundary/reopen failed: " + broken[1],
                              "tree": [], "meta": [], "links": [], "schemas": [], "pkgs": [], "empties": [], "weird": [],
-                             "uview": [], "uvisit": [], "uextra": [], "queries": [], "gets": [], "files": [], "index_live": "",
+                             "uview": [], "uvisit": [], "uextra": [], "umeta": [], "queries": [], "gets": [], "files": [], "index_live": "",
                              "index_fresh": "", "ident": "", "ident_ok": True, "held": [], "ok": False, "exc": broken[1]}
                     else:
                         o = observe(d, km, tk, rng, snap, originals, 0)
@@ -503,7 +503,7 @@ def run_history(job: Dict[str, Any], emit, scratch: Path, tk: h5lib.Tokens, env:
                     if d is ro_failed[0]:
                         out.append({"drv": d.kind, "timeout": False, "obs_err": "reopen failed: " + ro_failed[1],
                                     "tree": [], "meta": [], "links": [], "schemas": [], "pkgs": [], "empties": [], "weird": [],
-                                    "uview": [], "uvisit": [], "uextra": [], "queries": [], "gets": [], "files": [], "index_live": "",
+                                    "uview": [], "uvisit": [], "uextra": [], "umeta": [], "queries": [], "gets": [], "files": [], "index_live": "",
                                     "index_fresh": "", "ident": "", "ident_ok": True, "held": [], "ok": False, "exc": ro_failed[1]})
                     else:
                         o = observe(d, km, tk, rng, snap, originals, 0)
@@ -565,7 +565,7 @@ def run_history(job: Dict[str, Any], emit, scratch: Path, tk: h5lib.Tokens, env:
                     for d in drvs:
                         o = {"drv": d.kind, "timeout": False, "obs_err": "reopen failed: " + failed[1] if d is failed[0] else "",
                              "tree": [], "meta": [], "links": [], "schemas": [], "pkgs": [], "empties": [], "weird": [],
-                             "uview": [], "uvisit": [], "uextra": [], "queries": [], "gets": [], "files": [], "index_live": "",
+                             "uview": [], "uvisit": [], "uextra": [], "umeta": [], "queries": [], "gets": [], "files": [], "index_live": "",
                              "index_fresh": "", "ident": "", "ident_ok": True, "held": [], "ok": d is not failed[0], "exc": failed[1]}
                         if d is not failed[0]:
                             o = observe(d, km, tk, rng, snap, originals, 0)
